@@ -147,6 +147,31 @@ def run(ctx):
                 ctx.fail("kinematics:result-overwritten", "a state returned by an earlier call of the compiled reference model changed when the "
                          "model was called again", case)
                 break
+    # the reference model compiled AGAIN in this process with another calibration (mounting rotated, bias, g changed): the second
+    # compiled model works with its own calibration
+    try:
+        cal1 = dict(cal0)
+        for n_, dv in (("coriw", F(1, 2)), ("corix", F(3, 4)), ("fb1", F(1, 2)), ("fb3", F(-1, 4)), ("g", F(-1, 8))):
+            if n_ in cal1:
+                cal1[n_] = cal1[n_] + dv
+        with fk.quiet():
+            pm2 = python.compile(s.symbolic_model, calibration_map={sym(n): float(cal1[n]) for n in cal_names},
+                                 config={"common_subexpression_elimination": True})
+        pt = dict(pts[0], **cal1)
+        case = {"cse": True, "second_compile_with_other_calibration": True, "point": {k: core.frac_str(v) for k, v in pt.items()}}
+        ctx.case(case, True); ctx.count("second_compile_other_calibration")
+        with fk.quiet():
+            st = pm2.State(**{sym(n).name: float(pt[n]) for n in state_names})
+            ct = pm2.Control(**{sym(n).name: float(pt[n]) for n in ctl_names})
+            got = {tr.RENAME.get(k, k): v for k, v in fk.by_name(pm2.model(float(pt["dt"]), st, ct)).items()}
+        want = spec(pt)
+        sc = max(abs(float(v)) for v in want.values())
+        bad = [k for k in want if not core.close(got.get(k, float("nan")), want[k], scale=sc)]
+        if bad:
+            ctx.fail("kinematics:second-compile", f"{bad[0]}: the reference model compiled a second time with another calibration returns "
+                     f"{got.get(bad[0])!r}, rigid-body kinematics with that calibration gives {float(want[bad[0]])!r}", case)
+    except Exception as e:
+        ctx.fail(f"compile-raises:{fk.exc_kind(e)}:second", repr(e)[:300], {"second_compile_with_other_calibration": True})
     ans = drv.run()
     for idx, got, case in pending:
         a = ans[idx]
